@@ -230,10 +230,13 @@ def lib_unit(clsname, kind):
         calls["codec"] = []
         b = V.sym("blob", "bytes")
         r = I.call(dec, [b], {}) if dec is not None else None
-        okdec = (len(packed) == 1 and packed[0][0] == "loads" and packed[0][1] is b and packed[0][2] == {"use_list": False}
+        # whatever the encoder can write the decoder accepts: arrays come back as tuples (use_list=False) and maps may have any msgpack-able
+        # key -- attribute dictionaries with integer keys pack without complaint, so unpacking must not insist on string keys
+        okdec = (len(packed) == 1 and packed[0][0] == "loads" and packed[0][1] is b
+                 and packed[0][2].get("use_list") is False and packed[0][2].get("strict_map_key") is False and set(packed[0][2]) <= {"use_list", "strict_map_key"}
                  and len(calls["codec"]) == 1 and calls["codec"][0][0] == dq and calls["codec"][0][1] == [Opaque("obj:unpacked")]
                  and r == Opaque(f"obj:out:{dq}"))
-        V.ensure("post/decoder-unpacks-without-lists-then-deserializes", z3.BoolVal(bool(okdec)))
+        V.ensure("post/decoder-unpacks-without-lists-accepting-any-map-key-then-deserializes", z3.BoolVal(bool(okdec)))
     return body
 
 
